@@ -34,10 +34,10 @@ TEXT["C01"] = {
     "technique": "Lean 4 model + executable FIDE spec, three-way differential; partial Lean proof (layers)",
 }
 TEXT["C02"] = {
-    "level_text": "Full theorem stated (MakeMoveRefines + history induction); see evidence for the theorems discharged in the run. Every check replays thousands of (position, legal move) pairs and long games through clone_with_move, the Lean model and Spec.play and compares complete boards after every ply.",
+    "level_text": "Kernel-checked refinement theorem make_move_refines: for EVERY valid board and EVERY move legal under the rules, make_move does not panic and the resulting bitboards abstract exactly to the successor position of the rules (placement incl. captured man / en-passant victim / relocated rook / promoted piece, side to move, castling rights, en-passant target), and the result is valid again; valid_history and consistent_history lift this by induction to every finite sequence of legal moves (each square at most one piece of exactly one colour, exactly one king each). The model of board.rs is tied to the code by comparing complete boards after every ply of generated games (clone_with_move vs model vs Spec.play).",
     "design_ref": "DESIGN.md section 6, C02",
-    "level_note": "Trusted: spec of the rules (play/keepsRight), correspondence generators, Lean kernel for discharged theorems.",
-    "technique": "Lean 4 refinement theorem (make_move vs rules) + three-way differential on games",
+    "level_note": "Trusted: Lean kernel, standard axioms; Spec/Chess.lean (play, keepsRight, valid) as the meaning of the rules; u8/i8 square arithmetic modelled by Nat/Int (wrap-around only on invalid boards); model fidelity as explored by the correspondence.",
+    "technique": "Lean 4 refinement proof (bitboard make_move vs mailbox rules) + induction over histories; three-way differential on games",
 }
 TEXT["C17"] = {
     "level_text": "Machine-checked that the quiescence selection is exactly filter(capture|promotion|check) of the generated moves and all of them when in check; the semantic half (engine check test = rules) is tied to C01/C02 and decided per position by the correspondence, including the list chosen inside search_until_quiet (hook).",
